@@ -188,6 +188,10 @@ def generate(rng, n_contigs=(1, 2), n_samples=(1, 3), n_records=(3, 9), kinds=("
         fmt_defs[k] = STD_FORMAT[k]
     info_keys = [k for k in STD_INFO if extra_info and rng.random() < 0.6]
     info_defs = {k: STD_INFO[k] for k in info_keys}
+    if "AD" in extra_f and extra_info and rng.random() < 0.5:
+        # the same ID defined as INFO and as FORMAT (as `bcftools mpileup -a AD,INFO/AD` writes it)
+        info_defs["AD"] = ["R", "Integer", "Total allelic depths"]
+        info_keys = info_keys + ["AD"]
     filters = ["q10", "lowdp"] if rng.random() < 0.6 else []
     sample_tag = {}
     for s in samples:
@@ -219,7 +223,10 @@ def generate(rng, n_contigs=(1, 2), n_samples=(1, 3), n_records=(3, 9), kinds=("
                        filter=rng.choice(["PASS", "."] + filters), info=[], format=[], calls=[], kind=kind)
             for k in info_keys:
                 if rng.random() < 0.6:
-                    num, typ, _ = STD_INFO[k]
+                    num, typ, _ = info_defs[k]
+                    if k == "AD":
+                        rec["info"].append([k, ",".join(str(rng.randint(0, 30)) for _ in range(len(alts) + 1))])
+                        continue
                     if typ == "Flag":
                         rec["info"].append([k, None])
                     elif k == "AF":
